@@ -138,14 +138,14 @@ def _one_call(api, ctx, st, ev, log, reg):
     elif out["o"] == "host":
         out = {"o": "host", "cls": out.get("type", "?"), "v": {"k": "undef"}, "where": out.get("where", ""), "msg": out.get("msg", "")}
     else:
-        out = {"o": out["o"], "cls": out.get("name", ""), "v": {"k": "undef"}, "msg": out.get("msg", "")}
-    if out["o"] not in ("value", "throw"):
+        out = {"o": out["o"], "cls": out.get("name", ""), "v": {"k": "undef"}, "msg": out.get("msg", "") or out.get("why", "")}
+    if out["o"] not in ("value", "throw", "host"):
         _drop("arr")
     return {"out": out, "store": st.snapshot(), "log": list(log)}
 
 
 # One context serves a batch of cases (parsing the helper script dominates otherwise); every case gets new arrays and
-# resets every global it reads.  After any outcome that is not a plain JavaScript one the context is dropped.
+# resets every global it reads.  After a hang, a limit or an error escaping the script the context is dropped.
 _CACHE = {}
 BATCH = 250
 
@@ -279,7 +279,7 @@ def ta_driver(case, api):
             elif out["o"] == "host":
                 out = {"o": "host", "cls": out.get("type", "?"), "v": {"k": "undef"}, "where": out.get("where", ""), "msg": out.get("msg", "")}
             else:
-                out = {"o": out["o"], "cls": out.get("name", ""), "v": {"k": "undef"}, "msg": out.get("msg", "")}
+                out = {"o": out["o"], "cls": out.get("name", ""), "v": {"k": "undef"}, "msg": out.get("msg", "") or out.get("why", "")}
         # elements of every live view, read by script code (v.length, v[i])
         snap = []
         for v in views:
@@ -292,6 +292,6 @@ def ta_driver(case, api):
             else:
                 snap.append([wire.to_wire(e) for e in box[0]._elements])
         obs.append({"out": out, "snap": snap})
-        if out["o"] not in ("value", "throw", "skip"):
+        if out["o"] not in ("value", "throw", "skip", "host"):
             _drop("ta")
     return {"id": case["id"], "obs": obs}
